@@ -259,12 +259,13 @@ func observeFromCypher(q *cypher.RegularQuery, mapper pgsql.KindMapper, strip bo
 
 func trimStack(s string) string {
 	var keep []string
-	for _, l := range strings.Split(s, "\n") {
-		if strings.Contains(l, "/dawgs/") || strings.Contains(l, "/repo/") || strings.HasPrefix(l, "github.com/specterops") {
-			keep = append(keep, strings.TrimSpace(addrRe.ReplaceAllString(l, "0x…")))
-		}
-		if len(keep) >= 12 {
-			break
+	lines := strings.Split(s, "\n")
+	for i := 0; i < len(lines) && len(keep) < 24; i++ {
+		if strings.HasPrefix(lines[i], "github.com/specterops") {
+			keep = append(keep, strings.TrimSpace(addrRe.ReplaceAllString(lines[i], "0x…")))
+			if i+1 < len(lines) {
+				keep = append(keep, "    "+strings.TrimSpace(addrRe.ReplaceAllString(lines[i+1], "0x…")))
+			}
 		}
 	}
 	return strings.Join(keep, "\n")
